@@ -59,4 +59,9 @@ MUTANTS = [
  dict(id='C09-closed-silent', file='src/deep/task/__init__.py', old="        if not self._open:\n            raise IllegalStateException\n", new="        if not self._open:\n            return\n", props=['C09']),
  dict(id='C09-submit-twice-on-fail', file='src/deep/push/push_service.py', old="        stub.send(converted, metadata=self.grpc.metadata())", new="        try:\n            stub.send(converted, metadata=self.grpc.metadata())\n        except Exception:\n            stub.send(converted, metadata=self.grpc.metadata())", props=['C09']),
  dict(id='C09-pending-key-race', file='src/deep/task/__init__.py', old="        wait(list(self._pending.values()), timeout=10)\n", new="        for key in list(self._pending.keys()):\n            if key in self._pending:\n                wait([self._pending[key]], timeout=10)\n", props=['C09']),
+ dict(id='C12-nochange-clears', file='src/deep/config/tracepoint_config.py', old="        self._last_update = ts\n\n    def update_new_config", new="        self._last_update = ts\n        self._tracepoint_config = []\n\n    def update_new_config", props=['C12']),
+ dict(id='C12-captured-config-again', file='src/deep/config/tracepoint_config.py', old="        new_config = self._tracepoint_config\n        listeners_copy", new="        listeners_copy", props=['C12']),
+ dict(id='C12-timer-dies', file='src/deep/utils.py', old="            except Exception:\n                logging.exception(\n                    \"Repeated function", new="            except ValueError:\n                logging.exception(\n                    \"Repeated function", props=['C12']),
+
+ dict(id='C12-custom-dropped-on-update', file='src/deep/config/tracepoint_config.py', old="                listeners.config_change(ts, old_hash, current_hash, old_config, new_config + self._custom)", new="                listeners.config_change(ts, old_hash, current_hash, old_config, new_config + (self._custom if old_hash is None else []))", props=['C12', 'C13']),
 ]
